@@ -17,6 +17,16 @@ def ident(rng, lo, hi):
     return rng.choice(LETTERS) + ''.join(rng.choice(IDCH) for _ in range(n - 1))
 
 
+def random_of(rng):
+    import random
+    return random.Random(rng.getrandbits(48))
+
+
+def M_words(row):
+    import shlex
+    return shlex.split(row)
+
+
 def recase(rng, s):
     m = rng.randint(0, 3)
     if m == 0:
@@ -31,14 +41,14 @@ def recase(rng, s):
 class C07(Check):
     ID = 'C07'
     RULE = ('random maskbits files (1-8 groups, 1-64 labels on sparse bits always drawn with some of {0,31,32,62,63}, '
-            '0-4 aliases) rendered with comments, blank lines, blanks/tabs, trailing comments and (40%) the lines of different groups interleaved, parsed by the real '
+            '0-4 aliases; 35% with shrunk declared char widths and some names longer than declared, 30% with the typedef columns in another order) rendered with comments, blank lines, blanks/tabs, trailing comments and (40%) the lines of different groups interleaved, parsed by the real '
             'raw-mode yanny path via set_maskbits; ~40 queries per file: label subsets in random order and letter case, '
             'random/single-bit/all-ones/undefined-only 64-bit values as Python int, numpy uint64 and int64 (two\'s '
             'complement), aliases, unknown groups/labels, existence queries in all four flag combinations.  '
             'Non-trivial: a file whose queries touch a bit >= 32 or an alias; distinct by hash of definition+queries.')
     ASSUMPTIONS = ['file content in upper case, one label per bit, distinct labels per group (property domain)',
                    'negative numpy int64 values are read as their two\'s complement bit pattern']
-    REQUIRED_COUNTERS = ('alias_of_alias_definitions', 'queries_touching_bit63', 'alias_queries', 'keyerrors_expected_and_seen', 'roundtrips_of_values_without_defined_bits')
+    REQUIRED_COUNTERS = ('files_with_columns_in_another_order', 'names_longer_than_declared_width', 'alias_of_alias_definitions', 'queries_touching_bit63', 'alias_queries', 'keyerrors_expected_and_seen', 'roundtrips_of_values_without_defined_bits')
 
     def setup(self):
         import pydl.pydlutils.sdss as S
@@ -67,7 +77,7 @@ class C07(Check):
         groups = {}
         names = set()
         for _ in range(ngroups):
-            g = ident(rng, 1, 18)
+            g = ident(rng, 1, 18 if rng.random() < 0.85 else 36)
             while g in names:
                 g = ident(rng, 1, 18)
             names.add(g)
@@ -79,7 +89,7 @@ class C07(Check):
             labels = set()
             d = {}
             for b in sorted(bits, key=lambda _: rng.random()):
-                l = ident(rng, 1, 24)
+                l = ident(rng, 1, 24 if rng.random() < 0.9 else 48)
                 while l in labels:
                     l = ident(rng, 1, 24)
                 labels.add(l)
@@ -87,7 +97,7 @@ class C07(Check):
             groups[g] = d
         aliases = {}
         for _ in range(rng.choice([0, 0, 1, 2, 4])):
-            a = ident(rng, 2, 18)
+            a = ident(rng, 2, 18 if rng.random() < 0.85 else 36)
             if a in names:
                 continue
             names.add(a)
@@ -152,7 +162,19 @@ class C07(Check):
                 else:
                     queries.append({'op': 'name', 'group': 'ZZ_NO_GROUP', 'value': 0, 'vtype': 'int', 'concat': False,
                                     'unknown': 'group-zero'})
-        return {'groups': groups, 'aliases': aliases, 'layout': rng.getrandbits(32), 'queries': queries}
+        header = {}
+        hr = random_of(rng)
+        if hr.random() < 0.35:
+            header['widths'] = [hr.choice([4, 8, 20]), hr.choice([6, 12, 30]), hr.choice([4, 8, 20])]
+        if hr.random() < 0.3:
+            b = ['flag', 'bit', 'label', 'description']
+            hr.shuffle(b)
+            header['bits_columns'] = b
+        if hr.random() < 0.3:
+            a = ['flag', 'alias', 'description']
+            hr.shuffle(a)
+            header['alias_columns'] = a
+        return {'groups': groups, 'aliases': aliases, 'layout': rng.getrandbits(32), 'queries': queries, 'header': header}
 
     # --------------------------------------------------------------- render
     def render(self, case):
@@ -175,12 +197,20 @@ class C07(Check):
         if L.random() < 0.5:
             lines.append('#%yanny')
         lines += ['#', '# generated maskbits file', '#']
-        tds = ['typedef struct {\n    char flag[20]; # Flag name\n    short bit; # Bit number, 0-indexed\n'
-               '    char label[30]; # Bit label\n    char description[100]; # text description\n} maskbits;',
-               'typedef struct {\n    char flag[20]; # Flag name\n    short datatype; # Data type {8, 16, 32, 64}\n'
-               '    char description[100]; # text description\n} masktype;',
-               'typedef struct {\n    char flag[20]; # Flag (real) name\n    char alias[20]; # Alias\n'
-               '    char description[100]; # text description\n} maskalias;']
+        # the header is part of the input: the declared char widths (a yanny file read "raw" keeps the whole word, so a name
+        # longer than the declared width is still that name) and the order of the columns (the typedef decides which word
+        # of a row is the flag, the bit and the label) vary like everything else
+        hv = case.get('header', {})
+        wf, wl, wa = hv.get('widths', [20, 30, 20])
+        bcols = hv.get('bits_columns', ['flag', 'bit', 'label', 'description'])
+        acols = hv.get('alias_columns', ['flag', 'alias', 'description'])
+        decl = {'flag': 'char flag[%d]; # Flag name' % wf, 'bit': 'short bit; # Bit number, 0-indexed',
+                'label': 'char label[%d]; # Bit label' % wl, 'description': 'char description[100]; # text description',
+                'alias': 'char alias[%d]; # Alias' % wa}
+        tds = ['typedef struct {\n' + ''.join('    %s\n' % decl[c] for c in bcols) + '} maskbits;',
+               'typedef struct {\n    char flag[%d]; # Flag name\n    short datatype; # Data type {8, 16, 32, 64}\n'
+               '    char description[100]; # text description\n} masktype;' % wf,
+               'typedef struct {\n' + ''.join('    %s\n' % decl[c] for c in acols) + '} maskalias;']
         if not case['aliases'] and L.random() < 0.5:
             tds = tds[:2]
         for t in tds:
@@ -196,10 +226,12 @@ class C07(Check):
             for l, b in d.items():
                 desc = L.choice(['x', 'some description', 'Bit %d of %s' % (b, g), '', 'S/N > 3 \u03c3 (\u00b5-lensing)'])
                 struct = L.choice(['maskbits', 'maskbits', 'MASKBITS', 'Maskbits'])
-                row = '%s%s%s%s%s%s%s%s"%s"' % (struct, sp(), g, sp(), bitfmt % b, sp(), l, sp(), desc)
-                if L.random() < 0.15:
+                words = {'flag': g, 'bit': bitfmt % b, 'label': l, 'description': '"%s"' % desc}
+                use = list(bcols)
+                if bcols[-1] == 'description' and L.random() < 0.15:
                     # the trailing description is optional text: a row may simply leave it out
-                    row = '%s%s%s%s%s%s%s' % (struct, sp(), g, sp(), bitfmt % b, sp(), l)
+                    use = use[:-1]
+                row = struct + ''.join(sp() + words[c] for c in use)
                 if L.random() < 0.2:
                     row += sp() + '# trailing comment'
                 if L.random() < 0.15:
@@ -207,8 +239,11 @@ class C07(Check):
                 block.append(row)
             rows.append(block)
         for a, g in case['aliases'].items():
-            rows.append(['maskalias%s%s%s%s%s"alias of %s"' % (sp(), g, sp(), a, sp(), g) if L.random() < 0.8 else
-                         'maskalias%s%s%s%s' % (sp(), g, sp(), a)])
+            words = {'flag': g, 'alias': a, 'description': '"alias of %s"' % g}
+            use = list(acols)
+            if acols[-1] == 'description' and L.random() < 0.2:
+                use = use[:-1]
+            rows.append(['maskalias' + ''.join(sp() + words[c] for c in use)])
         # aliases must follow nothing in particular (set_maskbits resolves them after all rows are read)
         L.shuffle(rows)
         if L.random() < 0.4:
@@ -219,7 +254,8 @@ class C07(Check):
         flat = [r for block in rows for r in block]
         # alias rows keep their mutual order (an alias of an alias needs the earlier row first); everything else stays shuffled
         pos = [i for i, r in enumerate(flat) if r.startswith('maskalias')]
-        inorder = [r for a in case['aliases'] for r in flat if r.startswith('maskalias') and r.split()[2] == a]
+        ai = 1 + acols.index('alias')
+        inorder = [r for a in case['aliases'] for r in flat if r.startswith('maskalias') and M_words(r)[ai] == a]
         for i, r in zip(pos, inorder):
             flat[i] = r
         for r in flat:
@@ -251,6 +287,11 @@ class C07(Check):
                 g = aliases[g]
             return groups.get(g)
         out.count('alias_of_alias_definitions', sum(1 for t in aliases.values() if t in aliases))
+        hv = case.get('header', {})
+        wf, wl, wa = hv.get('widths', [20, 30, 20])
+        out.count('files_with_columns_in_another_order', int('bits_columns' in hv or 'alias_columns' in hv))
+        out.count('names_longer_than_declared_width', sum(len(g) > wf for g in groups) + sum(len(a) > wa for a in aliases)
+                  + sum(len(l) > wl for d in groups.values() for l in d))
         touched_hi = False
         touched_alias = False
         for qi, q in enumerate(case['queries']):
